@@ -13,26 +13,112 @@ from . import ops as O
 Z3_TIMEOUT_MS = {'quick': 20000, 'thorough': 120000}
 
 
-def to_smt2(ob):
+_MULF = z3.Function('vf.mul', z3.IntSort(), z3.IntSort(), z3.IntSort())
+_DIVF = z3.Function('vf.div', z3.IntSort(), z3.IntSort(), z3.IntSort())
+_MODF = z3.Function('vf.mod', z3.IntSort(), z3.IntSort(), z3.IntSort())
+
+
+def congruence_helpers(terms, limit=400):
+    """definitional equalities f(a, b) == a (op) b for every non-linear integer product, quotient and
+    remainder (by a non-numeral) occurring quantifier-free in the given formulas, f a fresh function
+    symbol per operator: they add nothing but congruence (equal operands => equal value) in a form the
+    solver's core sees without non-linear reasoning."""
+    seen, out = set(), []
+
+    def bound_free(t):
+        return True
+
+    def rec(t, under_binder):
+        if t.get_id() in seen or len(out) >= limit:
+            return
+        seen.add(t.get_id())
+        if z3.is_quantifier(t):
+            return      # terms with bound variables cannot be named outside their binder
+        if z3.is_app(t):
+            if t.sort() == z3.IntSort() and t.num_args() == 2:
+                a, b = t.arg(0), t.arg(1)
+                k = t.decl().kind()
+                if k == z3.Z3_OP_MUL and not z3.is_int_value(a) and not z3.is_int_value(b):
+                    out.append(_MULF(a, b) == t)
+                elif k == z3.Z3_OP_IDIV and not z3.is_int_value(b):
+                    out.append(_DIVF(a, b) == t)
+                elif k == z3.Z3_OP_MOD and not z3.is_int_value(b):
+                    out.append(_MODF(a, b) == t)
+            for ch in t.children():
+                rec(ch, under_binder)
+    for t in terms:
+        rec(t, False)
+    return out
+
+
+def _has_var(t, _seen=None):
+    _seen = _seen if _seen is not None else set()
+    if t.get_id() in _seen:
+        return False
+    _seen.add(t.get_id())
+    if z3.is_var(t):
+        return True
+    if z3.is_quantifier(t):
+        return True
+    return any(_has_var(c, _seen) for c in t.children())
+
+
+def _heavy(t, _seen=None):
+    """mentions a quantifier or a lambda"""
+    _seen = _seen if _seen is not None else set()
+    if t.get_id() in _seen:
+        return False
+    _seen.add(t.get_id())
+    if z3.is_quantifier(t):
+        return True
+    return any(_heavy(c, _seen) for c in t.children())
+
+
+def to_smt2(ob, light=False):
+    """SMT-LIB text of the negated obligation.  light: only the hypotheses without quantifiers and
+    lambdas (a subset of the hypotheses: `unsat` for it implies `unsat` for the full query)."""
     s = z3.Solver()
+    fs = []
     for h in ob.hyps:
-        s.add(O.to_z3(h))
+        hz = O.to_z3(h)
+        if light and z3.is_expr(hz) and _heavy(hz):
+            continue
+        fs.append(hz)
     for l in getattr(ob, 'lemmas', []) or []:
-        s.add(O.to_z3(l))
+        fs.append(O.to_z3(l))
     g = ob.goal
     if g is True:
         return None
     if g is False:
         pass
     else:
-        s.add(z3.Not(O.to_z3(g)))
+        fs.append(z3.Not(O.to_z3(g)))
+    for f in fs:
+        s.add(f)
+    for e in congruence_helpers([f for f in fs if z3.is_expr(f)]):
+        if not _has_var(e):
+            s.add(e)
     return s.to_smt2()
 
 
 def _solve(job):
     name, text, timeout_ms, seed = job
+    light = None
+    if isinstance(text, tuple):
+        light, text = text
     t0 = time.time()
     res, detail = 'unknown', None
+    if light is not None:
+        # relevance filter: first without the quantified / lambda-carrying hypotheses
+        try:
+            s = z3.Solver()
+            s.set('timeout', max(2000, timeout_ms // 4))
+            s.set('random_seed', seed)
+            s.from_string(light)
+            if s.check() == z3.unsat:
+                return name, 'unsat', time.time() - t0, 'z3', None
+        except Exception:
+            pass
     try:
         # slow queries are the unstable ones: a few differently seeded attempts before giving up
         for attempt in range(3):
@@ -82,6 +168,10 @@ def discharge(obls, tier='quick', workers=None, seed=0):
             continue
         try:
             text = to_smt2(ob)
+            if any(z3.is_expr(O.to_z3(h)) and _heavy(O.to_z3(h)) for h in ob.hyps):
+                lt = to_smt2(ob, light=True)
+                if lt is not None:
+                    text = (lt, text)
         except Exception as e:
             ob.result, ob.backend, ob.detail = 'error', 'z3', repr(e)
             continue
